@@ -151,6 +151,18 @@ Definition fs_of_interval (d : Q) (u : unit) : Q :=
 (* TimeSeries(data, sampling_rate=r, time_unit=u): Frequency(r, 's') = r * (10^12 / 10^12) *)
 Definition fs_of_rate (r : Q) (u : unit) : Q := r * (inject_Z (factor Us) / inject_Z (factor Us)).
 
+(* ------------------------------------------------------------------ a method dict shared by analyzers *)
+(* CoherenceAnalyzer.__init__ (coherence.py 72-76), SparseCoherenceAnalyzer.__init__ (463, 472) and
+   SeedCoherenceAnalyzer.__init__ (607, 618) keep the caller's dict object and do, on it,
+   method['Fs'] = method.get('Fs', own sampling rate).  `d` is the 'Fs' entry of the dict before the
+   first of these events, `rates` the own sampling rates of the analyzers in the order of the events;
+   the result lists the Fs each analyzer ends up using. *)
+Fixpoint shared_dict_fs (d : option Q) (rates : list Q) : list Q :=
+  match rates with
+  | [] => []
+  | r :: t => let fs := match d with Some f => f | None => r end in fs :: shared_dict_fs (Some fs) t
+  end.
+
 (* ------------------------------------------------------------------ the table of call sites *)
 Inductive site :=
 | S_periodogram | S_pcsd | S_mt_psd | S_mt_csd
